@@ -961,12 +961,20 @@ func (h *History) Model(p Pos) ([]*ExpTx, bool) {
 		return nil, false
 	}
 	cur := p
+	curFile := h.fileIndex(p.File)
 	var out []*ExpTx
 	for _, i := range idx {
 		u := h.Units[i]
+		if u.File > curFile {
+			// every file switch reaches the replica as a (fake) rotate event naming
+			// offset 4 of the next file, also when the stream started after the
+			// real rotate event of the previous file
+			curFile = u.File
+			cur = Pos{h.Files[u.File].Name, 4}
+		}
 		if u.Kind == uRotate {
 			cur = Pos{h.Files[u.NewFile].Name, 4}
-			// a rotate event always names offset 4 of the next file
+			curFile = u.NewFile
 			continue
 		}
 		if u.Tx != nil {
